@@ -3,6 +3,7 @@
 __all__ = ['CSSSerializer', 'Preferences']
 
 import codecs
+import decimal
 import re
 
 import cssutils
@@ -1106,6 +1107,13 @@ class CSSSerializer:
         b = b.rstrip('0')
         return a + b
 
+    @staticmethod
+    def _decimal(number):
+        """`number` in positional notation with all the digits it needs to
+        be read back as the same number (``'%f'`` gave six: ``1.0000001`` was
+        written ``1.0``, which is written ``1`` the next time)"""
+        return format(decimal.Decimal(repr(number)), 'f')
+
     def do_css_Value(self, value, valuesOnly=None):
         """Serializes a Value, valuesOnly is ignored"""
         if not value:
@@ -1131,14 +1139,14 @@ class CSSSerializer:
                     # cut off after . which is zero anyway
                     val = str(int(value.value))
                 elif self.prefs.omitLeadingZero and -1 < value.value < 1:
-                    v = self._strip_zeros('%f' % value.value)  # issue #27
+                    v = self._strip_zeros(self._decimal(value.value))  # issue #27
                     val = v
                     if value._sign == '-':
                         val = v[0] + v[2:]
                     else:
                         val = v[1:]
                 else:
-                    val = self._strip_zeros('%f' % value.value)  # issue #27
+                    val = self._strip_zeros(self._decimal(value.value))  # issue #27
 
                 # keep '+' if given
                 if value.value != 0 and value._sign == '+':
